@@ -188,10 +188,35 @@ func c18Stores(t *simrt.Tape, s *simrt.Sim, w *world.World, st *Stats, formats m
 	h := db.Open()
 	defer h.Close()
 	var sqlms *persistence.SQLMetastore
-	switch dialect {
-	case "mysql":
+	viaSidecar := dialect == "mysql" && t.Choose(2, "sql.via-sidecar-config") == 1
+	switch {
+	case viaSidecar:
+		// the metastore as the sidecar wires it up from its --metastore=rdbms options: its DSN
+		// handling decides how `created` travels; the host's time zone is not UTC everywhere
+		zones := []*time.Location{time.UTC, time.FixedZone("MST", -7*3600), time.FixedZone("IST", 5*3600+1800)}
+		oldLocal := time.Local
+		time.Local = zones[t.Choose(len(zones), "host.timezone")]
+		fakes.CurrentMySQL = db
+		server.VerifUseDBDriver(fakes.MySQLDriverName)
+		defer func() {
+			time.Local = oldLocal
+			fakes.CurrentMySQL = nil
+			server.VerifUseDBDriver("mysql")
+		}()
+		opts := &server.Options{Metastore: "rdbms", ConnectionString: "asherah:secret@tcp(db.internal:3306)/asherah"}
+		if t.Choose(2, "sql.replica-read-consistency") == 1 {
+			opts.ReplicaReadConsistency = "session"
+		}
+		var ok bool
+		if sqlms, ok = server.NewMetastore(opts).(*persistence.SQLMetastore); !ok {
+			w.Violate("sidecar-rdbms", "sidecar-rdbms", "the sidecar's rdbms option did not produce the SQL metastore")
+			return
+		}
+		formats["sql-mysql-via-sidecar-options"] = true
+		w.Faults.Fired["host.timezone-not-utc"] += map[bool]int{true: 1}[time.Local != time.UTC]
+	case dialect == "mysql":
 		sqlms = persistence.NewSQLMetastore(h)
-	case "postgres":
+	case dialect == "postgres":
 		sqlms = persistence.NewSQLMetastore(h, persistence.WithSQLMetastoreDBType(persistence.Postgres))
 	default:
 		sqlms = persistence.NewSQLMetastore(h, persistence.WithSQLMetastoreDBType(persistence.Oracle))
